@@ -206,4 +206,12 @@ var properties = map[string]propSpec{
 		Stub:        []string{"simulated user (plain os calls, stamped mtimes)", "independent walker", "syscall hook (gates, errno injection)", "fake clock"},
 		Probes:      []string{"probe.destructive_ops", "probe.disk_transitions", "probe.transition_problem_modified", "probe.user_edits"},
 	},
+	"C16": {
+		Engine: "syncsim", Level: "exploration", QuickSec: 30, ThoroughSec: 600,
+		Rule: "one run = a real session in portable symbolic link mode; the user plants links at depths 0..3 whose targets are built from the tokens {name, '.', '..', empty} joined by '/' (1..6 tokens), plus absolute, colon, backslash and 246/247/248-byte targets; scenario links-scan has two real endpoints (links are found by scans and propagated), scenario links-mixed has a model alpha endpoint that reports link entries with any target to a real beta endpoint (so the transition-side check is reached with targets no scan would accept); oracle: every SymbolicLink entry in a real scan's snapshot and every link a real transition reports as created satisfies the harness's own POSIX-lexical rule (empty and '.' components are no-ops, never above the root, not empty/absolute/too long/colon/backslash); non-trivial and distinct as C01",
+		Assumptions: append([]string{"decided through scan and transition behaviour on a simulated disk, not by calling the unexported normalisation function"}, commonAssumptions...),
+		Real:        []string{"synchronization.Manager and controller", "local endpoint (scan, poll watching, staging, transition, cache)", "core.Scan / core.Transition / core.Reconcile", "rsync transmit/receive", "filesystem package on tmpfs (/dev/shm)", "staging store"},
+		Stub:        []string{"simulated user (plain os calls, stamped mtimes)", "independent walker", "syscall hook (gates, errno injection)", "fake clock", "model alpha endpoint in the links-mixed scenario"},
+		Probes:      []string{"probe.links_accepted_by_scan", "probe.links_created_by_transition"},
+	},
 }
